@@ -228,7 +228,7 @@ def run(ctx):
                 C.check(lo and hi and role(pos_args[0]) == 'pos', 'C07-MUST-range', '%s|%s|position-within-range' % (fn, cname), '%s hands the requested position to %s without both bounds checks start_pos <= position <= end_pos' % (fn, cname), b.where(p),
                         sample={'fn': fn, 'guards': ['start_pos <= position', 'position <= end_pos']} if i == 0 else None)
             else:
-                C.check(any(c.endswith('calc_element_insert_range') for c in cs) and 'position' not in names, 'C07-MUST-range', '%s|%s|position-from-range' % (fn, cname), '%s does not insert at a position taken from the computed range' % fn, b.where(p))
+                C.check(any(c.endswith('calc_element_insert_range') for c in cs) and not ({b.names.get(l_) for l_ in range(1, b.argc + 1) if (b.local_ty(l_) or '') == 'usize'} & set(names)), 'C07-MUST-range', '%s|%s|position-from-range' % (fn, cname), '%s does not insert at a position taken from the computed range' % fn, b.where(p))
     # a move WITHIN the same parent: the insert range was computed with the element still in place, so the end of the range must
     # reach move_element_position, which refuses a forward move to it
     mh = P.get('ElementRaw::move_element_here_at')
